@@ -75,3 +75,79 @@ func TestSmokeNativeSetters(t *testing.T) {
 		t.Fatalf("%d txs, rejected %v", len(blk.Transactions), b.Rejected)
 	}
 }
+
+// TestSmokeFlows drives the oracle response and notary-assisted flows end to end.
+func TestSmokeFlows(t *testing.T) {
+	for _, prof := range []string{"V1C1", "V4C6"} {
+		b, err := NewBuilder(ChainCfg{Profile: prof, P2PSig: true})
+		if err != nil {
+			t.Fatal(err)
+		}
+		if _, err := b.Bootstrap(); err != nil {
+			t.Fatal(err)
+		}
+		bc := b.N.BC
+		_, blk, err := b.BuildBlock(BlockSpec{Txs: []Action{
+			{Kind: "oracle_request", From: 2, A: 0, S: "a", V: []byte("ud"), B: 1, N: 1_0000_0000, Nonce: 1},
+			{Kind: "oracle_request", From: 2, A: 1, S: "b", V: []byte("ud"), B: 2, N: 1_0000_0000, Nonce: 2},
+			{Kind: "oracle_request", From: 3, A: 1, S: "b", V: []byte("ud"), B: 0, Nonce: 3},
+			{Kind: "oracle_request", From: 3, A: 0, S: "c", V: []byte{}, B: 1, N: 5000_0000, Nonce: 4},
+		}, TimeD: 5})
+		if err != nil || len(blk.Transactions) != 4 {
+			t.Fatal(err, b.Rejected)
+		}
+		p, err := PendingOracleRequests(bc)
+		if err != nil || len(p) != 4 {
+			t.Fatal(err, len(p))
+		}
+		roleGas := func() string {
+			s := ""
+			for _, k := range RoleKeys {
+				s += bc.GetUtilityTokenBalance(k.Hash, k.Hash).String() + " "
+			}
+			return s
+		}
+		t.Log("role keys GAS before:", roleGas())
+		_, blk, err = b.BuildBlock(BlockSpec{Txs: []Action{
+			{Kind: "oracle_response", A: 0, B: 0, V: []byte("result"), Nonce: 10},
+			{Kind: "oracle_response", A: 1, B: 0, V: []byte("result"), Nonce: 11},
+			{Kind: "oracle_response", A: 2, B: 5, V: []byte("result"), Nonce: 12},
+			{Kind: "oracle_response", A: 3, B: 12, Nonce: 13},
+			{Kind: "notary_assisted", From: 0, A: 2, B: NAExact, Inner: &Action{Kind: "gas_transfer", A: 3, N: 7}, Nonce: 20},
+			{Kind: "notary_assisted", From: 1, A: 0, B: NAExact, Inner: &Action{Kind: "throw"}, Nonce: 21},
+			{Kind: "notary_assisted", From: 0, A: 1, B: NAOverDeposit, Inner: &Action{Kind: "gas_transfer", A: 3, N: 7}, Nonce: 22},
+			{Kind: "notary_assisted", From: 0, A: 1, B: NAThirdSigner, Inner: &Action{Kind: "gas_transfer", A: 3, N: 7}, Nonce: 23},
+			{Kind: "notary_assisted", From: 2, A: 1, B: NACosigner, Inner: &Action{Kind: "policy", S: "setFeePerByte", N: 1500}, Nonce: 24},
+			{Kind: "notary_assisted", From: 0, A: 3, B: NAWholeDeposit, Inner: &Action{Kind: "invoke", S: "put", A: 0, K: []byte("n"), V: []byte("v")}, Nonce: 25},
+			{Kind: "notary_assisted", From: 0, A: 0, B: NAExact, Nonce: 26},
+		}, TimeD: 5})
+		if err != nil {
+			t.Fatal(err)
+		}
+		t.Log(prof, "txs", len(blk.Transactions), "rejected", b.Rejected, "flow", b.Flow)
+		t.Log("role keys GAS after:", roleGas())
+		a := AERs(bc, blk.Hash(), blk.Transactions, false)
+		for i, tx := range blk.Transactions {
+			s := a[fmt.Sprintf("aer/tx%d/0", i)]
+			t.Log(i, tx.Nonce, tx.SystemFee, tx.NetworkFee, s[:min(len(s), 300)])
+		}
+		if len(blk.Transactions) != 8 {
+			t.Errorf("%d txs", len(blk.Transactions))
+		}
+		for _, l := range []string{"oracle-response", "oracle-response-callback-fault", "notary-assisted", "notary-assisted-fault", "notary-assisted-cosigned", "deposit-exhausted"} {
+			if b.Flow[l] == 0 {
+				t.Errorf("flow %s not seen", l)
+			}
+		}
+		if p, _ := PendingOracleRequests(bc); len(p) != 0 {
+			t.Errorf("%d requests still pending", len(p))
+		}
+		if l := LeakedFailedCallbackWrites(bc); len(l) != 0 {
+			t.Errorf("leaked: %v", l)
+		}
+		if NotaryDeposit(bc, Accounts[0].Hash) != nil {
+			t.Errorf("deposit of account 0 still there")
+		}
+		b.Close()
+	}
+}
